@@ -536,6 +536,13 @@ class Executor:
     def oblige(self, st, kind, goal, node, text=None, extra=None):
         text = text if text is not None else cast_mod.src_of(self.tu, node)
         goal = z3.simplify(goal)
+        off = node.get('off')
+        if off and kind == 'nooverflow':
+            # a multi-line expression: the sanitizer reports the line of the
+            # operator, which can be below the first line of the expression
+            extra = dict(extra or {})
+            extra['line_end'] = node.get('line', 0) + self.tu['src'][
+                off[0]:off[1]].count('\n')
         if z3.is_true(goal):
             # trivially true obligations are still counted (as discharged by
             # simplification) so that coverage numbers are honest
@@ -813,6 +820,10 @@ class Executor:
             if isinstance(b, StructV):
                 if loc.name in b.fields:
                     return b.fields[loc.name]
+                if CT(b.ty).s == 'number' and loc.name == 'd' and \
+                        isinstance(b.fields.get('z'), FltV):
+                    # union punning: the real part of the complex member
+                    return FltV(b.fields['z'].t, 'double')
                 v = self.uninit_value(loc.ty, loc.name)
                 b.fields[loc.name] = v
                 return v
